@@ -1,5 +1,6 @@
 // Property bodies C01 C03 C05 C06 C10 (valid-value side of the codec family).
 #include "harness/codec.h"
+#include <csignal>
 #include <climits>
 #include <cstdarg>
 #include <thread>
@@ -131,6 +132,7 @@ std::string body_C01(Ctx& c, CaseIn& in) {
   // complete block. (The oracle is schedule independent: whatever the timing, the values must come back.)
   if (have_first && sup_r(R_Fd) && first_bytes.size() >= 2 && first_bytes.size() <= 4096 && tp.below(4) == 0) {
     int fds[2];
+    static const bool sigpipe_ignored = (signal(SIGPIPE, SIG_IGN), true); (void)sigpipe_ignored;   // a reader that gives up early must not kill the feeder
     if (pipe(fds) == 0) {
       const size_t split = 1 + (size_t)tp.below(first_bytes.size() - 1);
       const Bytes data = first_bytes;
